@@ -14,7 +14,7 @@ OBLIGATIONS = [
     'Cvise.C06.finishes_at_single', 'Cvise.C06.completes', 'Cvise.C06.no_accept_no_single', 'Cvise.C06.monotone_exact',
     'Cvise.C06.monotone_exact_total',
     'Cvise.C06.gcda_invariant', 'Cvise.C06.gcda_visit_in_range', 'Cvise.C06.gcda_finishes_at_single', 'Cvise.C06.gcda_completes',
-    'Cvise.C06.gcda_no_accept_no_single', 'Cvise.C06.gcda_monotone_exact', 'Cvise.C06.gcda_monotone_exact_total', 'Cvise.C06.gcda_trace_is_run',
+    'Cvise.C06.gcda_no_accept_no_single', 'Cvise.C06.gcda_monotone_exact', 'Cvise.C06.gcda_monotone_exact_total', 'Cvise.C06.gcda_trace_is_run', 'Cvise.C06.gcda_bytes_are_items',
     'Cvise.C06.ifs_invariant', 'Cvise.C06.ifs_visit_in_range', 'Cvise.C06.ifs_completes', 'Cvise.C06.ifs_no_accept_no_single',
     'Cvise.C06.ifs_monotone_exact', 'Cvise.C06.ifs_monotone_exact_total', 'Cvise.C06.ifs_trace_is_run', 'Cvise.C06.ifs_sticky_value',
     'Cvise.gen_advance_eq', 'Cvise.gen_aos_eq', 'Cvise.gen_create_eq', 'Cvise.gen_end_eq', 'Cvise.gen_realChunk_eq',
